@@ -231,7 +231,35 @@ fn check_roundtrip_inner(kind: Kind, raw: i128, pic: &str) -> Result<(), String>
     }
 }
 
+/// Concurrent histories: every thread round-trips its own values (see `stress_value`) twice
+/// through one of two fixed lossless pictures of the value's type.
+pub fn check_concurrent(sd: u64, threads: usize, iters: u64) -> Result<u64, String> {
+    const PICS: [[&str; 2]; 6] = [
+        ["YYYY-MM-DD", "Day, DD Month YYYY DDD"],
+        ["HH24:MI:SS.FF", "HH12:MI:SS.FF6 AM"],
+        ["YYYY-MM-DD HH24:MI:SS.FF", "DY Mon DD HH:MI:SS.FF9 P.M. YYYY"],
+        ["YYYY-MM-DD HH24:MI:SS", "Month DD, YYYY HH12:MI:SS A.M."],
+        ["YYYY-MM", "YYYY MM"],
+        ["DD HH24:MI:SS.FF", "DD HH24 MI SS FF7"],
+    ];
+    stress(sd, threads, iters, |t, sm| {
+        let (ki, raw) = stress_value(sd, t, sm);
+        let pic = PICS[ki][sm.below(2) as usize];
+        check_roundtrip(KINDS[ki], raw, pic)?;
+        check_roundtrip(KINDS[ki], raw, pic)
+    })
+}
+
 pub fn eval(case: &Case) -> Verdict {
+    if case.kind == "concurrent" {
+        // several repetitions: the interleaving is not pinned by the replay file
+        for rep in 0..8u64 {
+            if let Err(m) = check_concurrent(case.i[0] as u64 ^ rep, case.i[1] as usize, case.i[2] as u64) {
+                return Verdict::Fail(m);
+            }
+        }
+        return Verdict::Pass;
+    }
     let r = match case.kind.as_str() {
         "roundtrip" => check_roundtrip(Kind::from_index(case.i[0] as usize), case.i[1], &case.s[0]),
         k => Err(format!("unknown case kind {k}")),
@@ -372,6 +400,23 @@ pub fn run(ctx: &Ctx) -> (Stats, Report) {
         st.merge(s);
     }
     st.section("generated_values_x_pictures", &mut mark);
+
+    // concurrent histories: 16 threads round-trip their own values at once
+    {
+        let iters = if ctx.thorough { 300_000 } else { 15_000 };
+        for rep in 0..4u64 {
+            let sd = seed ^ mix64(0xc06 ^ rep);
+            match check_concurrent(sd, THREADS, iters) {
+                Ok(n) => {
+                    st.evaluations += 2 * n;
+                    st.nontrivial_enum += 2 * n;
+                    st.class_n("concurrent-round-trip", 2 * n);
+                }
+                Err(m) => st.fail(rep, Case::new(P, "concurrent", vec![sd as i128, THREADS as i128, iters as i128], vec![]), m),
+            }
+        }
+    }
+    st.section("concurrent_histories", &mut mark);
 
     let rep = Report {
         rule: "Lossless picture grammar per type (4-digit year + month [number / abbreviated / full name in any style] + day, or year + day of year, optional consistent day-of-year and weekday fields; 24-hour or 12-hour + one of the meridian spellings; minute, second; fraction FF / FFp with p large enough for the value; interval year/day first then the other fields), fields permuted, separators drawn from \"\" - / : . , ; \\ T and blank runs with a non-empty separator forced after variable-width fields and between name fields. E1: all dates x generated pictures (fresh per 4096-date chunk), all seconds x generated pictures on Time/Timestamp/OracleDate; E2: proptest-generated values x pictures for all six types with shrinking. Oracle: parse(format(v,p),p) == v and format(that,p) == text byte for byte; the formatted text is also compared with the reference renderer so compensating errors cannot hide. Non-trivial = at least two value fields and one of: non-canonical order, a name field, 12-hour clock, extra consistency field, empty separator; distinct by (type, picture, value).".into(),
